@@ -3,6 +3,7 @@ package main
 // Calls: builtins, external (stdlib) models, contracts, inlining, havoc.
 
 import (
+	"os"
 	"fmt"
 	"go/token"
 	"go/types"
@@ -293,6 +294,8 @@ func (f *Frame) appendOp(c *ssa.CallCommon, pos token.Pos) Val {
 				f.assume(fmt.Sprintf("(forall ((j Int)) (! (=> (and (<= 0 j) (< j %s)) (= (select %s (elem %s (+ %s %s j))) (select %s (elem %s (+ %s j))))) :pattern ((select %s (elem %s (+ %s %s j))))))",
 					n, h1, resArr, resOff, ln, h0, xarr, xoff, h1, resArr, resOff, ln))
 				f.assume(implies(app(">=", n, "1"), eq(app("select", h1, vc.elemRef(resArr, app("+", resOff, ln))), app("select", h0, vc.elemRef(xarr, xoff)))))
+				// (and the second one: two-element literals such as []T{a, b} are appended whole)
+				f.assume(implies(app(">=", n, "2"), eq(app("select", h1, vc.elemRef(resArr, app("+", resOff, ln, "1"))), app("select", h0, vc.elemRef(xarr, app("+", xoff, "1"))))))
 			}
 			// "the last element" as specifications write it (s[len(s)-1]) is the appended one
 			f.assume(implies(eq(n, "1"), eq(vc.elemRef(resArr, app("+", resOff, app("-", newLen, "1"))), vc.elemRef(resArr, app("+", resOff, ln)))))
@@ -382,6 +385,13 @@ func (f *Frame) callFunction(fn *ssa.Function, args []Val, bind []Val, c *ssa.Ca
 		}
 		mb, md := vc.inlineLimits()
 		seeThrough = !onSt && vc.depth < md && len(fn.Blocks) <= mb && len(fn.FreeVars) == len(bind)
+		// `bycontract <callee>` in the caller's contract: use that callee's postconditions here
+		if vc.contract != nil && vc.contract.ByContract[fn.Name()] {
+			seeThrough = false
+		}
+		if os.Getenv("VERIF_DEBUG_INLINE") != "" {
+			fmt.Fprintf(os.Stderr, "transparent %s in %s: depth=%d md=%d blocks=%d mb=%d pure=%d stack=%v -> %v\n", fn, vc.top, vc.depth, md, len(fn.Blocks), mb, vc.pure, vc.stack, seeThrough)
+		}
 	}
 	if ct != nil && !seeThrough && (len(ct.Ensures) > 0 || len(ct.Requires) > 0 || ct.Modular || fn == vc.top) && vc.pure == 0 {
 		var names []string
@@ -511,6 +521,8 @@ func (e *Engine) derefsUnconditionally(fn *ssa.Function, p *ssa.Parameter) bool 
 
 func (f *Frame) applyContractFn(ct *Contract, fn *ssa.Function, names []string, args []Val, m ModSet, pos token.Pos) Val {
 	f.callFresh = f.vc.eng.freshOnlyOf(fn, m)
+	f.callSelf = fn
+	defer func() { f.callSelf = nil }()
 	res := f.applyContract(ct, names, args, fn.Signature.Results(), m, fn.Name(), pos, fn == f.vc.top)
 	f.callFresh = nil
 	f.noteTokenRead(fn, res, pos)
@@ -519,7 +531,7 @@ func (f *Frame) applyContractFn(ct *Contract, fn *ssa.Function, names []string, 
 
 func (f *Frame) applyContract(ct *Contract, names []string, args []Val, results *types.Tuple, m ModSet, short string, pos token.Pos, recursive bool) Val {
 	vc := f.vc
-	env := &SpecEnv{f: f, vars: map[string]Val{}, st: f.cur, old: f.cur, pkg: ct.Pkg}
+	env := &SpecEnv{f: f, vars: map[string]Val{}, st: f.cur, old: f.cur, pkg: ct.Pkg, self: f.callSelf}
 	for i, n := range names {
 		if i < len(args) {
 			env.vars[n] = args[i]
